@@ -12,6 +12,11 @@ implementation and model must agree bit for bit):
     cache, for meta_size x meta_buffer x minimize_meta_requests x bulk_meta_tiles x concurrent_tile_creators;
     the upstream request log + the coordinates of every store call are compared with `create_plan`, sampled
     pixels of the stored images with `model_pixel` (pattern + TileSplitter + upstream picture).
+Streams: (a) empty cache, picture 'cells' (pixel = ground cell index), 'rgba' (four informative bands, alpha 1..254,
+transparent cache) or 'rgb' (opaque cache): the comparison with the tile fetched alone covers all bands;
+(b) histories on ONE cache: several requests with changing configuration and removals of single tiles in between
+(partially cached meta tiles with and without their main tile); the observed plan is compared with
+`plan_with_cache`, every requested tile must be served with an image.
 Oracle (Python, exact fractions, independent of the model): stored tile == same tile fetched alone through a
 TileManager without meta tiling (bit-exact when no buffer is cut off at the grid border, <= 1 px otherwise);
 no background pixel more than one pixel inside the extent; every requested tile is produced; one upstream
@@ -49,7 +54,8 @@ TRUSTED = ['model MetaGrid.v hand-written from mapproxy/grid.py (MetaGrid), imag
            'float rounding of grid.py not modelled (exact stream bit-exact); PIL crop/paste trusted to copy pixels']
 ASSUMPTIONS = ['resolutions positive, bbox non-degenerate, tile size positive, meta size >= 1, buffer >= 0',
                'end to end: the grid extent is at least one pixel wide and high on the level (otherwise a truncated meta request has size 0)',
-               'the upstream picture depends on ground position only (section hypothesis: it is the sampling function of the model)']
+               'the upstream picture depends on ground position only (section hypothesis: it is the sampling function of the model)',
+               'plan_with_cache: a request does not name the same coordinate twice']
 EXPLANATION = ('crop pattern arithmetic proved over Z for all grids/meta sizes/buffers; real MetaGrid and TileManager '
                'compared with the model on an exact stream; tiles compared pixel by pixel with the tile fetched alone')
 
@@ -114,33 +120,83 @@ def call(f, *a, **kw):
 
 # ----------------------------------------------------------------------------- position-encoding upstream
 
+def colour_of(transparent, vx, vy):
+    return (vx % 256, vy % 256, (vx * 7 + vy * 13) % 255, 1 + (vx + 3 * vy) % 254 if transparent else 255)
+
+
 class Picture:
-    """The upstream picture: value at a ground point = index of the q-cell containing it, counted from the lower
-    left grid corner, mod 4093 (per axis).  An image of (bbox, size) samples it at the pixel centres.  All in
-    exact integers scaled by gc.S."""
+    """The upstream picture: a function of ground position only.  The q-cell containing a ground point (counted from
+    the lower left grid corner, index mod 4093 per axis) decides the value; an image of (bbox, size) samples the
+    picture at the pixel centres, in exact integers scaled by gc.S.
+    kind 'cells': the pixel carries the two cell indices (12 bits each in R, G, B; alpha 255);
+    kind 'rgba' : all four bands carry information, alpha between 1 and 254 (a transparent cache);
+    kind 'rgb'  : three bands, blue below 255 (a non-transparent cache; the background is white)."""
 
-    def __init__(self, gc, q):
-        self.gc, self.q = gc, q           # q: scaled integer
+    def __init__(self, gc, q, kind='cells'):
+        self.gc, self.q, self.kind = gc, q, kind           # q: scaled integer
+        self.transparent = kind != 'rgb'
 
-    def render(self, bbox, size):
-        from PIL import Image
+    def cells(self, bbox, size):
         gc, q = self.gc, self.q
         minx, miny, maxx, maxy = [gc.z(v) for v in bbox]
         w, h = size
         gx0, gy0 = gc.z(gc.bbox[0]), gc.z(gc.bbox[1])
         xs = [(((2 * c + 1) * (maxx - minx) + 2 * w * (minx - gx0)) // (2 * w * q)) % PIC_MOD for c in range(w)]
         ys = [((2 * h * (maxy - gy0) - (2 * r + 1) * (maxy - miny)) // (2 * h * q)) % PIC_MOD for r in range(h)]
-        rowx = [(v & 255, v >> 8) for v in xs]
+        return xs, ys
+
+    def render(self, bbox, size):
+        from PIL import Image
+        w, h = size
+        xs, ys = self.cells(bbox, size)
         buf = bytearray()
+        if self.kind == 'cells':
+            rowx = [(v & 255, v >> 8) for v in xs]
+            for vy in ys:
+                lo, hi = vy & 255, (vy >> 8) << 4
+                for xl, xh in rowx:
+                    buf += bytes((xl, xh | hi, lo, 255))
+            return Image.frombytes('RGBA', (w, h), bytes(buf))
+        if self.kind == 'rgba':
+            for vy in ys:
+                for vx in xs:
+                    buf += bytes(colour_of(True, vx, vy))
+            return Image.frombytes('RGBA', (w, h), bytes(buf))
         for vy in ys:
-            lo, hi = vy & 255, (vy >> 8) << 4
-            for xl, xh in rowx:
-                buf += bytes((xl, xh | hi, lo, 255))
-        return Image.frombytes('RGBA', (w, h), bytes(buf))
+            for vx in xs:
+                buf += bytes(colour_of(False, vx, vy)[:3])
+        return Image.frombytes('RGB', (w, h), bytes(buf))
+
+    def decode(self, img):
+        """rows of pixel values: kind cells -> (vx, vy) or None (background); colour kinds -> (r, g, b, a)."""
+        if self.kind == 'cells':
+            return decode(img)
+        w, h = img.size
+        if img.mode == 'RGBA':
+            data = img.tobytes()
+            return [[tuple(data[4 * (r * w + c):4 * (r * w + c) + 4]) for c in range(w)] for r in range(h)]
+        data = img.convert('RGB').tobytes()
+        return [[tuple(data[3 * (r * w + c):3 * (r * w + c) + 3]) + (255,) for c in range(w)] for r in range(h)]
+
+    def is_bg(self, a):
+        if self.kind == 'cells':
+            return a is None
+        return a == ((255, 255, 255, 0) if self.transparent else (255, 255, 255, 255))
+
+    def mismatch(self, a, refcell, tol):
+        """None when pixel value a shows the picture within tol cells of the reference cell, else a description."""
+        if self.kind == 'cells':
+            dx, dy = centred(a[0] - refcell[0]), centred(a[1] - refcell[1])
+            return None if (abs(dx) <= tol and abs(dy) <= tol) else 'differs by (%d,%d) cells' % (dx, dy)
+        for dx in range(-tol, tol + 1):
+            for dy in range(-tol, tol + 1):
+                if colour_of(self.transparent, (refcell[0] + dx) % PIC_MOD, (refcell[1] + dy) % PIC_MOD) == a:
+                    return None
+        return 'has colour %r, the picture there is %r' % (a, colour_of(self.transparent, refcell[0], refcell[1]))
 
 
 def decode(img):
-    """PIL RGBA image -> list of rows of (vx, vy) or None (background)."""
+    """PIL RGBA image of kind 'cells' -> list of rows of (vx, vy) or None (background)."""
     img = img.convert('RGBA') if img.mode != 'RGBA' else img
     w, h = img.size
     data = img.tobytes()
@@ -237,17 +293,23 @@ class RecordingCache:
         pass
 
 
-def run_manager(gc, picture, cfg, coords):
+def run_manager(gc, picture, cfg, coords, cache=None):
     """Run a real TileManager.  cfg: meta_size, meta_buffer, minimize, bulk, concurrent, as_buffer.
     Returns (steps, result sources, error) where steps = [(requests, [(coord, image)])] in canonical order."""
     from mapproxy.cache.tile import TileManager
     from mapproxy.cache.dummy import DummyLocker
     from mapproxy.image.opts import ImageOptions
-    opts = ImageOptions(transparent=True, format='image/png', mode='RGBA')
+    if picture.transparent:
+        opts = ImageOptions(transparent=True, format='image/png', mode='RGBA')
+    else:
+        opts = ImageOptions(transparent=False, format='image/png', mode='RGB')
     events, lock = [], threading.Lock()
     bulk = cfg['bulk']
     src = Upstream(picture, events, lock, opts, supports_meta=not bulk, as_buffer=cfg.get('as_buffer', False))
-    cache = RecordingCache(events, lock)
+    if cache is None:
+        cache = RecordingCache(events, lock)
+    else:
+        cache.events, cache.lock = events, lock
     try:
         tm = TileManager(gc.grid, cache, [src], 'png', DummyLocker(), image_opts=opts,
                          meta_size=cfg['meta_size'], meta_buffer=cfg['meta_buffer'],
@@ -314,11 +376,14 @@ def block_of(gc, cfg, coords, level, coord, has_meta):
     return (x0, x0 + sx - 1), (y0, y0 + sy - 1)
 
 
-def oracle(ctx, gc, q, cfg, coords, level, steps, served, has_meta, reference, rep):
+def oracle(ctx, gc, picture, cfg, coords, level, steps, served, has_meta, reference, rep, cached=()):
+    """cached: coordinates the cache held when the request started (histories); only the others are created."""
+    q = picture.q
     r = gc.res[level]
     m = -((-int(r * gc.S)) // q)                # cells per pixel, rounded up (|floor a - floor b| <= ceil |a - b|)
     nx, ny = gc.grid_size(level)
     valid = [tuple(c) for c in coords if c is not None]
+    uncached = [c for c in valid if c not in cached]
     stored_at = {}
     buf = cfg['meta_buffer'] if (has_meta and not cfg['bulk']) else 0
     dup = False
@@ -330,7 +395,7 @@ def oracle(ctx, gc, q, cfg, coords, level, steps, served, has_meta, reference, r
     if dup:
         ctx.fail('tile-stored-twice', 'a tile is stored by two upstream requests', rep)
     # every requested tile is produced
-    missing = [c for c in valid if c not in stored_at]
+    missing = [c for c in uncached if c not in stored_at]
     served_missing = [c for c, img in served if c is not None and img is None]
     if missing or served_missing:
         sig = 'requested-tile-not-produced'
@@ -347,7 +412,7 @@ def oracle(ctx, gc, q, cfg, coords, level, steps, served, has_meta, reference, r
         elif len(reqs) != 1:
             ctx.fail('requests-per-meta-tile', '%d upstream requests before one store call of %r' % (len(reqs), coords_here), rep)
         # every valid tile of the block is in this store call, nothing else
-        (bx0, bx1), (by0, by1) = block_of(gc, cfg, coords, level, coords_here[0], has_meta)
+        (bx0, bx1), (by0, by1) = block_of(gc, cfg, uncached, level, coords_here[0], has_meta)
         want = sorted((x, y, level) for x in range(bx0, bx1 + 1) for y in range(by0, by1 + 1) if 0 <= x < nx and 0 <= y < ny)
         if sorted(coords_here) != want:
             ctx.fail('store-not-whole-meta-tile', 'store call holds %r, the meta tile consists of %r' % (sorted(coords_here), want), rep)
@@ -355,14 +420,14 @@ def oracle(ctx, gc, q, cfg, coords, level, steps, served, has_meta, reference, r
     gx0, gy0, gx1, gy1 = gc.bbox
     for coord, (si, img) in sorted(stored_at.items()):
         ref = reference(coord)
-        got = decode(img)
+        got = picture.decode(img)
         if ref is None:
             continue
         tw, th = gc.tw, gc.th
         if img.size != (tw, th):
             ctx.fail('tile-size', 'stored tile %r has size %r' % (coord, img.size), rep)
             continue
-        (bx0, bx1), (by0, by1) = block_of(gc, cfg, coords, level, coord, has_meta)
+        (bx0, bx1), (by0, by1) = block_of(gc, cfg, uncached, level, coord, has_meta)
         lo = gc.tile_rect(bx0, by0, level)
         hi = gc.tile_rect(bx1, by1, level)
         box = (min(lo[0], hi[0]) - buf * r, min(lo[1], hi[1]) - buf * r, max(lo[2], hi[2]) + buf * r, max(lo[3], hi[3]) + buf * r)
@@ -372,7 +437,7 @@ def oracle(ctx, gc, q, cfg, coords, level, steps, served, has_meta, reference, r
         for k in range(th):
             for j in range(tw):
                 a, b = got[k][j], ref[k][j]
-                if a is None:
+                if picture.is_bg(a):
                     if untruncated:
                         worst = ('background', j, k)
                         break
@@ -383,10 +448,9 @@ def oracle(ctx, gc, q, cfg, coords, level, steps, served, has_meta, reference, r
                         worst = ('background-inside', j, k)
                         break
                     continue
-                dx, dy = centred(a[0] - b[0]), centred(a[1] - b[1])
-                tol = 0 if untruncated else m
-                if abs(dx) > tol or abs(dy) > tol:
-                    worst = ('shift', j, k, dx, dy, m)
+                bad = picture.mismatch(a, b, 0 if untruncated else m)
+                if bad:
+                    worst = ('shift', j, k, bad, m)
                     break
             if worst:
                 break
@@ -397,9 +461,9 @@ def oracle(ctx, gc, q, cfg, coords, level, steps, served, has_meta, reference, r
             elif kind == 'background-inside':
                 ctx.fail('background-inside-extent', 'tile %r pixel %r more than one pixel inside the extent is background' % (coord, worst[1:]), dict(rep, tile=coord))
             elif untruncated:
-                ctx.fail('tile-differs-from-tile-fetched-alone', 'tile %r pixel (%d,%d) differs from the tile fetched alone by (%d,%d) cells (%d cells per pixel), no buffer cut off' % ((coord,) + worst[1:]), dict(rep, tile=coord))
+                ctx.fail('tile-differs-from-tile-fetched-alone', 'tile %r pixel (%d,%d) %s (tile fetched alone; %d cells per pixel), no buffer cut off' % ((coord,) + worst[1:]), dict(rep, tile=coord))
             else:
-                ctx.fail('tile-off-by-more-than-one-pixel', 'tile %r pixel (%d,%d) differs from the tile fetched alone by (%d,%d) cells (%d cells per pixel)' % ((coord,) + worst[1:]), dict(rep, tile=coord))
+                ctx.fail('tile-off-by-more-than-one-pixel', 'tile %r pixel (%d,%d) %s (tile fetched alone; %d cells per pixel)' % ((coord,) + worst[1:]), dict(rep, tile=coord))
         ctx.count('tiles:' + ('untruncated' if untruncated else 'truncated'))
     # what is served equals what is stored
     for c, img in served:
@@ -469,7 +533,7 @@ def run(ctx):
 
     grids = []
     defs = []
-    T = {name: ([], []) for name in ('misc', 'meta_tile', 'minimal', 'plan', 'pixel')}
+    T = {name: ([], []) for name in ('misc', 'meta_tile', 'minimal', 'plan', 'pixel', 'colour')}
 
     def add(name, term, desc):
         T[name][0].append(term)
@@ -483,16 +547,27 @@ def run(ctx):
 
     ref_cache = {}
 
-    def e2e(gc, cfg, coords, level, tag):
-        q = int(min(gc.res) * gc.S) // 10
-        picture = Picture(gc, q)
-        rep = {'grid': gc.spec, 'config': cfg, 'level': level, 'tiles': [list(c) if c is not None else None for c in coords]}
-        steps, served, has_meta, err = run_manager(gc, picture, cfg, coords)
+    def e2e(gc, cfg, coords, level, tag, kind='cells', cache=None, history=None):
+        """one request through a real TileManager; cache: a RecordingCache that already holds tiles (histories)."""
+        if kind == 'cells':
+            q = int(min(gc.res) * gc.S) // 10
+        else:
+            q = int(gc.res[level] * gc.S)        # one cell per pixel: the <= 1 px rule is a 3x3 neighbourhood
+        picture = Picture(gc, q, kind)
+        cached = sorted(c for c in (cache.stored if cache is not None else {}) if c[2] == level)
+        rep = {'grid': gc.spec, 'config': cfg, 'level': level, 'tiles': [list(c) if c is not None else None for c in coords],
+               'picture': kind}
+        if history is not None:
+            rep['history'] = history
+            rep['cached_before'] = cached
+        steps, served, has_meta, err = run_manager(gc, picture, cfg, coords, cache=cache)
         mode = 'single' if (steps is not None and not has_meta) else 'minimize' if cfg['minimize'] else 'bulk' if cfg['bulk'] else 'meta'
         ctx.count('e2e:' + mode)
+        ctx.count('e2e:picture=' + kind)
+        ctx.count('e2e:cache=' + ('empty' if not cached else 'holds_tiles'))
         ctx.count('e2e:concurrent=%d' % cfg['concurrent'])
-        ctx.count('e2e:buffer=' + ('0' if cfg['meta_buffer'] == 0 else '<tile' if cfg['meta_buffer'] < min(gc.tw, gc.th) else '>=tile'))
-        nontrivial = cfg['meta_buffer'] > 0 or cfg['meta_size'] != [1, 1]
+        ctx.count('e2e:buffer=' + ('0' if not cfg['meta_buffer'] else '<tile' if cfg['meta_buffer'] < min(gc.tw, gc.th) else '>=tile'))
+        nontrivial = bool(cfg['meta_buffer']) or cfg['meta_size'] not in ([1, 1], None)
         ctx.case(('e2e', json.dumps(rep, sort_keys=True)), nontrivial,
                  dict(rep, upstream_requests=[r for s in steps for r in s[0]][:4], stored=[[c for c, _ in s[1]] for s in steps][:4]) if steps is not None else dict(rep, error=err))
         if err is not None:
@@ -500,10 +575,10 @@ def run(ctx):
             return
 
         def reference(coord):
-            key = (gc.name, coord)
+            key = (gc.name, coord, q)
             if key not in ref_cache:
                 scfg = {'meta_size': None, 'meta_buffer': None, 'minimize': False, 'bulk': False, 'concurrent': 1}
-                st, sv, hm, er = run_manager(gc, picture, scfg, [coord])
+                st, sv, hm, er = run_manager(gc, Picture(gc, q, 'cells'), scfg, [coord])
                 if er is not None or hm or len(st) != 1 or len(st[0][1]) != 1:
                     ctx.fail('single-tile-fetch-fails', 'fetching %r alone failed: %r' % (coord, er), rep)
                     ref_cache[key] = None
@@ -511,27 +586,42 @@ def run(ctx):
                     ref_cache[key] = decode(st[0][1][0][1])
             return ref_cache[key]
 
-        oracle(ctx, gc, q, cfg, coords, level, steps, served, has_meta, reference, rep)
+        if kind != 'cells':
+            # the tile fetched alone through the same kind of cache shows exactly the picture (all four bands)
+            for coord in [tuple(c) for c in coords if c is not None][:2]:
+                key = (gc.name, coord, q, kind)
+                if key not in ref_cache:
+                    ref_cache[key] = True
+                    scfg = {'meta_size': None, 'meta_buffer': None, 'minimize': False, 'bulk': False, 'concurrent': 1}
+                    st, sv, hm, er = run_manager(gc, picture, scfg, [coord])
+                    cells = reference(coord)
+                    if er is None and cells is not None and st and st[0][1]:
+                        got = picture.decode(st[0][1][0][1])
+                        if any(picture.mismatch(got[k][j], cells[k][j], 0) for k in range(gc.th) for j in range(gc.tw)):
+                            ctx.fail('single-tile-colour', 'tile %r fetched alone does not show the upstream picture' % (coord,), rep)
+
+        oracle(ctx, gc, picture, cfg, coords, level, steps, served, has_meta, reference, rep, cached=set(cached))
         # correspondence: plan
         valid = [tuple(c) for c in coords if c is not None]
+        uncached = [c for c in valid if c not in set(cached)]
         obs_plan = llit(steps, lambda s: '(%s, %s)' % (llit(s[0], lambda rq: '(%s, %s)' % (gc.zbbox(rq[0]), z2(rq[1]))),
                                                        llit([c for c, _ in s[1]], coord_lit)))
         ms = cfg['meta_size'] or [1, 1]
         mbuf = 0 if (cfg['bulk'] or not has_meta) else (cfg['meta_buffer'] or 0)
         mgl = mg_lit(gc, ms, mbuf)
-        add('plan', '(%s, %s, %s, %s, %s, Some %s)' % (mgl, blit(has_meta), blit(cfg['minimize']), blit(cfg['bulk'] and has_meta),
-                                                      llit(valid, coord_lit), obs_plan),
+        add('plan', '(%s, %s, %s, %s, %s, %s, Some %s)' % (mgl, blit(has_meta), blit(cfg['minimize']), blit(cfg['bulk'] and has_meta),
+                                                          llit(cached, coord_lit), llit(valid, coord_lit), obs_plan),
             dict(rep, observed_steps=[{'requests': s[0], 'stored': [c for c, _ in s[1]]} for s in steps]))
         # correspondence: sampled pixels of stored tiles
         if not has_meta or cfg['bulk']:
             how = 'HowSingle'
-        elif cfg['minimize'] and len(valid) > 1:
-            how = '(HowMinimal %s)' % llit(valid, coord_lit)
+        elif cfg['minimize'] and len(uncached) > 1:
+            how = '(HowMinimal %s)' % llit(uncached, coord_lit)
         else:
             how = 'HowMeta'
         for reqs, rec in steps:
             for coord, img in rec:
-                got = decode(img)
+                got = picture.decode(img)
                 pts = {(0, 0), (gc.tw - 1, 0), (0, gc.th - 1), (gc.tw - 1, gc.th - 1)}
                 for _ in range(ctx.n(2, 4)):
                     pts.add((rng.randrange(gc.tw), rng.randrange(gc.th)))
@@ -539,13 +629,60 @@ def run(ctx):
                     if j >= img.size[0] or k >= img.size[1]:
                         continue
                     v = got[k][j]
-                    add('pixel', '(%s, %d, %s, %s, %d, %d, Some %s)' % (mgl, q, how, coord_lit(coord), j, k, olit(v, z2)),
-                        dict(rep, tile=coord, pixel=(j, k), value=v))
+                    if kind == 'cells':
+                        add('pixel', '(%s, %d, %s, %s, %d, %d, Some %s)' % (mgl, q, how, coord_lit(coord), j, k, olit(v, z2)),
+                            dict(rep, tile=coord, pixel=(j, k), value=v))
+                    else:
+                        add('colour', '(%s, %d, %s, %s, %s, %d, %d, Some (%d, %d, %d, %d))' % (
+                            (mgl, q, how, blit(picture.transparent), coord_lit(coord), j, k) + tuple(v)),
+                            dict(rep, tile=coord, pixel=(j, k), rgba=v))
+
+    def run_history(gc, level, kind):
+        """several requests (configuration may change in between) and removals of single tiles on ONE cache:
+        partially cached meta tiles, with and without their main tile."""
+        cache = RecordingCache([], threading.Lock())
+        hist = []
+        base = pick_tiles(rng, gc, level, 'block')
+        for step in range(rng.randrange(3, 6)):
+            stored_here = sorted(c for c in cache.stored if c[2] == level)
+            if stored_here and rng.random() < 0.45:
+                k = rng.randrange(1, max(2, len(stored_here) // 2 + 1))
+                victims = rng.sample(stored_here, min(k, len(stored_here)))
+                for c in victims:
+                    del cache.stored[c]
+                hist.append({'remove': victims})
+                ctx.count('history:remove')
+                continue
+            cfg = gen_cfg(rng, gc)
+            cfg['concurrent'] = rng.choice([1, 1, 2])
+            how = rng.choice(['same', 'same', 'near', 'one'])
+            if how == 'same':
+                coords = list(base)
+            elif how == 'near':
+                coords = pick_tiles(rng, gc, level, 'block')
+            else:
+                coords = [rng.choice(base)]
+            e2e(gc, cfg, coords, level, 'history', kind=kind, cache=cache, history=list(hist))
+            hist.append({'request': [list(c) for c in coords], 'config': cfg})
+            ctx.count('history:request')
 
     # ---- corpus first
     for item in load_corpus():
         gc = new_grid(item['grid'])
-        e2e(gc, item['config'], [tuple(c) if c is not None else None for c in item['tiles']], item['level'], 'corpus')
+        if 'history' in item:
+            cache = RecordingCache([], threading.Lock())
+            done = []
+            for op in item['history']:
+                if 'remove' in op:
+                    for c in op['remove']:
+                        cache.stored.pop(tuple(c), None)
+                else:
+                    e2e(gc, op['config'], [tuple(c) for c in op['request']], item['level'], 'corpus',
+                        kind=item.get('picture', 'cells'), cache=cache, history=list(done))
+                done.append(op)
+        else:
+            e2e(gc, item['config'], [tuple(c) if c is not None else None for c in item['tiles']], item['level'], 'corpus',
+                kind=item.get('picture', 'cells'))
 
     n_grids = ctx.n(14, 70)
     for _ in range(n_grids):
@@ -612,7 +749,9 @@ def run(ctx):
             coords = pick_tiles(rng, gc, level, rng.choice(['one', 'block', 'block', 'random']))
             if rng.random() < 0.1:
                 coords.insert(rng.randrange(len(coords) + 1), None)
-            e2e(gc, cfg, coords, level, 'random')
+            e2e(gc, cfg, coords, level, 'random', kind=rng.choice(['cells', 'cells', 'rgba', 'rgba', 'rgb']))
+        for _ in range(ctx.n(2, 6) if e2e_levels else 0):
+            run_history(gc, rng.choice(e2e_levels), rng.choice(['cells', 'cells', 'rgba', 'rgb']))
 
     dtext = '\n'.join(defs)
     I = 'Grid MetaGrid'
@@ -626,12 +765,16 @@ def run(ctx):
     ctx.corr_check('minimal_meta_tile', I, 'mgrid * list coord * option metatile', T['minimal'][0],
                    "fun c => let '(m, tiles, obs) := c in ometatile_eqb (minimal_meta_tile m tiles) obs",
                    lambda i: T['minimal'][1][i], defs=dtext, shard=250)
-    ctx.corr_check('create_plan', I, 'mgrid * bool * bool * bool * list coord * option (list step)', T['plan'][0],
-                   "fun c => let '(m, has_meta, minimize, bulk, tiles, obs) := c in plan_eqb (create_plan m has_meta minimize bulk tiles) obs",
+    ctx.corr_check('create_plan', I, 'mgrid * bool * bool * bool * list coord * list coord * option (list step)', T['plan'][0],
+                   "fun c => let '(m, has_meta, minimize, bulk, cached, tiles, obs) := c in "
+                   "plan_eqb (plan_with_cache m has_meta minimize bulk cached tiles) obs",
                    lambda i: T['plan'][1][i], defs=dtext, shard=200)
     ctx.corr_check('stored_pixel', I, 'mgrid * Z * how * coord * Z * Z * option (option (Z * Z))', T['pixel'][0],
                    "fun c => let '(m, q, h, t, j, k, obs) := c in oopix_eqb (model_pixel m q h t j k) obs",
                    lambda i: T['pixel'][1][i], defs=dtext, shard=400)
+    ctx.corr_check('stored_colour', I, 'mgrid * Z * how * bool * coord * Z * Z * option rgba', T['colour'][0],
+                   "fun c => let '(m, q, h, tr, t, j, k, obs) := c in orgba_eqb (model_colour m q h tr t j k) obs",
+                   lambda i: T['colour'][1][i], defs=dtext, shard=400)
 
 
 def pattern_oracle(ctx, gc, ms, buf, level, mt, desc):
@@ -658,3 +801,4 @@ def pattern_oracle(ctx, gc, ms, buf, level, mt, desc):
         ey = (bb[3] - rect[3]) / r
         if abs(crop[0] - ex) > 1 or abs(crop[1] - ey) > 1:
             ctx.fail('crop-offset-off-by-more-than-one-pixel', 'tile %r: crop %r, exact offset (%s, %s)' % (t, crop, float(ex), float(ey)), desc)
+
